@@ -279,3 +279,12 @@ def run(ctx, rep, tier):
     from .shared import delegate
     delegate(ctx, rep, tier, "C02", ("C02.g",), "C06.l", "nested action templates are generated with the context of the enclosing transition (a redirect inside them re-dispatches instead of returning)")
     delegate(ctx, rep, tier, "C05", ("C05.d",), "C06.k", "what an action may do to the target (override mode / targets, for every branch of a conditional action) is what the emitted control transfer relies on")
+
+
+_run_l05 = run
+
+
+def run(ctx, rep, tier):
+    _run_l05(ctx, rep, tier)
+    from .shared import delegate
+    delegate(ctx, rep, tier, "C05", ("C05.l",), "C06.m", "the optimiser never creates a transition on which the early advance for a yield meets an action that re-dispatches without consuming")
